@@ -346,6 +346,7 @@ func c18FeeQuoteHistory(c *mon.Ctx, h *c18Hist) {
 			<-start
 			ctr := int64(0)
 			newID := func() int64 { ctr++; return int64(g+1)<<24 | ctr }
+			held := map[string]*bt.FeeQuote{}
 			for k := 0; k < h.OpsEach; k++ {
 				yield(r)
 				op := r.Intn(16)
@@ -477,7 +478,23 @@ func c18FeeQuoteHistory(c *mon.Ctx, h *c18Hist) {
 					}
 				case 14: // FeeQuotes.Quote then Fee through the returned quote (known miners: the quote object is never replaced)
 					m := prng.Pick(r, []string{"m0", "m1"})
-					q, err := fqs.Quote(m)
+					var q *bt.FeeQuote
+					var err error
+					if rec.raw && held[m] != nil && r.Chance(2, 3) {
+						// raw histories: a handle obtained earlier stays in use (while miners are re-added, see case 15)
+						q = held[m]
+						switch r.Intn(4) {
+						case 0:
+							_ = q.Expiry()
+						case 1:
+							_ = q.Expired()
+						case 2:
+							_, _ = json.Marshal(q)
+						}
+					} else {
+						q, err = fqs.Quote(m)
+						held[m] = q
+					}
 					if err != nil || q == nil {
 						continue
 					}
@@ -490,6 +507,17 @@ func c18FeeQuoteHistory(c *mon.Ctx, h *c18Hist) {
 					}
 					rec.add(c18Op{proc: g, kind: "FeeQuotes.Quote+Fee", key: "fee:" + m + ":" + string(t), val: id, call: call, ret: ret})
 				case 15: // the first goroutines add the two late miners exactly once
+					if rec.raw && r.Chance(1, 2) {
+						// raw histories only (no register semantics judged): a known miner is added again
+						// while handles to its earlier quote are still being read
+						m := prng.Pick(r, []string{"m0", "m1"})
+						if r.Bool() {
+							fqs.AddMinerWithDefault(m)
+						} else {
+							fqs.AddMiner(m, bt.NewFeeQuote())
+						}
+						continue
+					}
 					if g < 2 && k == h.OpsEach/3 {
 						m := []string{"m2", "m3"}[g]
 						call := rec.tick()
@@ -802,7 +830,7 @@ func init() {
 		Rule: "Built with the race detector. (1) FeeQuote/FeeQuotes histories: 4-32 goroutines, GOMAXPROCS in {2,4,16}, few keys (2 fee types x 4 miners + 2 free-standing quotes), mixed Fee / AddQuote / Expiry / UpdateExpiry / Expired / json.Marshal / json.Unmarshal / FeeQuotes.Fee / UpdateMinerFees / Quote / AddMiner(WithDefault) with randomised yields between operations; every written fee or expiry carries a unique id spread redundantly over its fields; call/return stamped from one atomic counter at the client boundary. Judged: zero race-detector reports (log files parsed by the parent), no fatal error, every value read was stored by some write with consistent fields, every per-key history linearizable against a register (decided exactly by the unique-value zone criterion of Gibbons & Korach, and cross-checked with porcupine under a 20 s timeout whose expiry is only recorded). " +
 			"(2) one shared Engine executing a fixed job set (P2PKH, P2PK with separators, 2-of-3 multisig, two-check scripts, pure-script node vectors; every hash opcode on 20 / 3000 / 48000-byte operands against independently computed digests; 20 arithmetic and byte-string programs; accepted and rejected) from many goroutines, each on its own deserialised transaction: every concurrent verdict/error text equals the sequential one. " +
 			"distinct_nontrivial = histories in which at least two operations of different type overlapped on one key (resp. engine runs with both accepted and rejected jobs) and all oracles held.",
-		Assum:  []string{"only the schedules the Go scheduler produced under these settings were observed", "existing miners are never replaced during a history (AddMiner only introduces new names), so that Quote()+operation is a single-register operation"},
+		Assum:  []string{"only the schedules the Go scheduler produced under these settings were observed", "in the judged (non-raw) histories existing miners are never replaced (AddMiner only introduces new names), so that Quote()+operation is a single-register operation; the raw histories, judged by the race detector and the torn-value checks alone, re-add known miners while earlier Quote() handles stay in use"},
 		Shards: func(tier string) int { return 4 },
 	}
 	hist := mon.Kind(p, "history", func(c *mon.Ctx, h *c18Hist) {
